@@ -279,6 +279,85 @@ func c17GeoAxisLine(c *Ctx, n int) orb.LineString {
 	return ls
 }
 
+// antimeridian walk in lon/lat: the line stays within `reach` degrees of the antimeridian and
+// crosses it the usual way, by a pair of consecutive vertices (180, lat), (-180, lat) or
+// (-180, lat), (180, lat).  geo.Distance folds the longitude difference, so this hop is a segment
+// of length EXACTLY 0 between two different coordinates (the only way to get one through the
+// protocol: the df tags are pl and geo).  Every other segment stays on one side of the
+// antimeridian (no segment crosses it, none is folded) and is a parallel or a meridian, except
+// for a few oblique ones.  Hops occur as first / last / interior segment, repeated back and
+// forth, and next to repeated vertices.
+func c17AntiLine(c *Ctx, n int) orb.LineString {
+	r := c.Rng
+	reach := []float64{1e-3, 0.5, 10, 10, 40}[r.Intn(5)]
+	grid := r.Intn(3) == 0 // integer / half-integer coordinates
+	rnd := func(x float64) float64 {
+		if grid {
+			return math.Round(x*2) / 2
+		}
+		return x
+	}
+	side := float64(1 - 2*r.Intn(2)) // +1: longitudes 180-reach..180, -1: -180..-180+reach
+	lat := rnd((r.Float64()*2 - 1) * 70)
+	lon := side * 180
+	if r.Intn(3) != 0 { // otherwise the line starts on the seam (first segment may be the hop)
+		lon = side * (180 - rnd(r.Float64()*reach))
+	}
+	ls := make(orb.LineString, 0, n)
+	for i := 0; i < n; i++ {
+		ls = append(ls, orb.Point{lon, lat})
+		if math.Abs(lon) == 180 && r.Intn(2) == 0 {
+			// the zero-length hop over the antimeridian
+			side = -side
+			lon = -lon
+			continue
+		}
+		switch k := r.Intn(10); {
+		case k == 0: // repeated vertex
+		case k <= 3: // along the parallel to the seam
+			lon = side * 180
+		case k <= 6: // along the parallel
+			lon = side * (180 - rnd(r.Float64()*reach))
+		case k <= 8: // along the meridian (also the meridian +-180 itself)
+			if q := lat + rnd((r.Float64()*2-1)*reach); math.Abs(q) < 85 {
+				lat = q
+			}
+		default: // oblique (spacing-df is the known finding there)
+			lon = side * (180 - rnd(r.Float64()*reach))
+			if q := lat + rnd((r.Float64()*2-1)*reach); math.Abs(q) < 85 {
+				lat = q
+			}
+		}
+	}
+	return ls
+}
+
+// fixed antimeridian lines at latitude L (see c17AntiLine): the hop (180,L)(-180,L) resp.
+// (-180,L)(180,L) as interior / first / last segment, in both directions, repeated, next to
+// repeated vertices, followed by a parallel, a meridian or an oblique segment; and lines that
+// consist of hops only (different vertices, length exactly 0)
+func c17AntiFixed(L float64) []orb.LineString {
+	return []orb.LineString{
+		{{170, L}, {180, L}, {-180, L}, {-170, L}}, // the seeded witness C17-r2m3 (to 5 points)
+		{{-170, L}, {-180, L}, {180, L}, {170, L}},
+		{{180, L}, {-180, L}, {-170, L}, {-160, L}}, // first segment
+		{{-180, L}, {180, L}, {170, L}},
+		{{160, L}, {170, L}, {180, L}, {-180, L}}, // last segment
+		{{-170, L}, {-180, L}, {180, L}},
+		{{180, L}, {-180, L}, {-170, L}, {-180, L}, {180, L}},                                                            // first and last
+		{{170, L}, {180, L}, {-180, L}, {180, L}, {-180, L}, {-170, L}},                                                  // back and forth
+		{{175, L}, {180, L}, {-180, L}, {180, L}, {170, L}},                                                              // hop and back: never leaves the east side
+		{{170, L}, {180, L}, {180, L}, {-180, L}, {-180, L}, {-175, L}, {-175, L + 5}},                                   // with repeated vertices
+		{{170, L}, {180, L}, {-180, L}, {-170, L}, {-180, L}, {180, L}, {175, L}},                                        // two crossings
+		{{175, L}, {180, L}, {-180, L}, {-180, L + 5}, {180, L + 5}, {170, L + 5}},                                       // meridian along the seam
+		{{170, L}, {180, L}, {-180, L}, {-180, L}, {-180, L - 4}, {-176, L - 4}},                                         // hop, repeat, meridian
+		{{170, L}, {180, L + 3}, {-180, L + 3}, {-172, L - 2}},                                                           // oblique neighbours
+		{{179.5, L}, {180, L}, {-180, L}, {-179.75, L}, {-180, L}, {180, L}, {179.5, L}, {180, L}, {-180, L}, {-179, L}}, // three hops
+		{{180, L}, {-180, L}},           // hops only: length 0, vertices differ
+		{{180, L}, {-180, L}, {180, L}}, //
+	}
+}
+
 // long-line family: 50..200 vertices resampled to about 1e4 points (5000..15000); the
 // integer axis-aligned kind, which the driver judges in exact rational arithmetic (slow), has
 // 50..100 vertices and 1000..3000 points
@@ -301,7 +380,11 @@ func c17LongCase(c *Ctx) {
 		ls = c17GeoLine(c, n)
 		df = "geo"
 	default:
-		ls = c17GeoAxisLine(c, n)
+		if r.Intn(3) == 0 {
+			ls = c17AntiLine(c, n)
+		} else {
+			ls = c17GeoAxisLine(c, n)
+		}
 		df = "geo"
 	}
 	if r.Intn(2) == 0 {
@@ -486,6 +569,29 @@ func genC17(c *Ctx) {
 		}
 	}
 
+	// --- fixed family 7: zero-length hops between DIFFERENT coordinates — the antimeridian pair
+	// (180,L)(-180,L) under geo.Distance — at every position of the line; every N in 1..12 and
+	// intervals incl. exact divisors of the length (seeded change C17-r2m3: a walk that carries
+	// the segment start over a skipped zero-length segment interpolates the next segment from
+	// lon 180 to lon -170 through 0)
+	for _, L := range []float64{0, 10, 45, -62.5} {
+		for _, ls := range c17AntiFixed(L) {
+			if !mine() {
+				continue
+			}
+			total := c17Len(ls, geo.Distance)
+			for n := 1; n <= 12; n++ {
+				c17Case(c, "rs", "geo", ls, strconv.Itoa(n))
+			}
+			for _, d := range []float64{total, total / 2, total / 3, total / 4, total / 4.5, total / 7, total / 11.3,
+				total * 1.0000001, total * 0.9999999, total + 1, 1000, 250000, math.Inf(1)} {
+				if d > 0 {
+					c17Case(c, "iv", "geo", ls, fb(d))
+				}
+			}
+		}
+	}
+
 	// --- random cases
 	longEvery := 400
 	for i := 0; i < c.Budget && !c.Exhausted(); i++ {
@@ -511,9 +617,12 @@ func genC17(c *Ctx) {
 		case 6, 7:
 			ls = c17FloatLine(c, n, CoordFloat)
 		case 8:
-			if r.Intn(3) == 0 {
+			switch r.Intn(6) {
+			case 0, 1:
 				ls = c17GeoAxisLine(c, n)
-			} else {
+			case 2, 3:
+				ls = c17AntiLine(c, n)
+			default:
 				ls = c17GeoLine(c, n)
 			}
 			df = "geo"
